@@ -4,6 +4,8 @@ import (
 	"bytes"
 	"math"
 	"math/rand"
+	"sort"
+	"strings"
 
 	"golang.org/x/image/font"
 	xsfnt "golang.org/x/image/font/sfnt"
@@ -14,8 +16,10 @@ import (
 
 	"seehuhn.de/go/sfnt"
 	"seehuhn.de/go/sfnt/cff"
+	"seehuhn.de/go/sfnt/cmap"
 	"seehuhn.de/go/sfnt/glyf"
 	"seehuhn.de/go/sfnt/glyph"
+	"seehuhn.de/go/sfnt/os2"
 
 	"verif.local/harness/internal/fonts"
 	mx "verif.local/harness/internal/metricsx"
@@ -31,7 +35,19 @@ type FontCase struct {
 	Matrix string     `json:"matrix"` // top: FontMatrix = 1/upm; fd: (CID) FontMatrix = identity, per-FD matrices = 1/upm
 	Angle  [2]int     `json:"angle"`  // italic angle, 16.16
 	FMu    [6]int     `json:"fmu"`    // general affine font matrix in units of 1e-6 (all zero: 1/upm scaling)
+	Geo    string     `json:"geo"`    // "": as made; degen: degenerate glyphs determine the extremes; degenonly: nothing else has contours
+	CMap   string     `json:"cmap"`   // "": Opts.Cmap; 12single | 12two | 12astral1 | 12astral | 4single | 12bmp
+	Style  *StyleIn   `json:"style"`  // nil: as made (regular); else the style flags of the font value, set independently
 	Shift  [2]int     `json:"shift"`  // all outlines are translated by this vector (no composites then)
+}
+
+// StyleIn are the style inputs of a font value, enumerated independently of each other.
+type StyleIn struct {
+	Italic  bool `json:"italic"`
+	Oblique bool `json:"oblique"`
+	Bold    bool `json:"bold"`
+	Regular bool `json:"regular"`
+	Weight  int  `json:"weight"`
 }
 
 // classes of font matrices, in units of 1e-6
@@ -96,14 +112,24 @@ func fontCases(n int) []*FontCase {
 			// fractional advance widths on both sides of one half
 			{"cff", "frac", 11, none, false}, {"cid", "frac", 9, none, true}, {"cff", "frachi", 4, none, false},
 			{"cid", "frachi", 7, none, false}, {"cff", "monofrac", 5, none, false}, {"cff", "frachi", 23, none, false},
+			// float widths within half a unit which truncate to different hmtx integers (603.0, 602.6)
+			{"cff", "driftdown", 2, none, false}, {"cid", "driftdown", 3, none, false},
 			// one font of every outline kind for every class of font matrix
 			{"ttf", "rand", 8, fmTranslate, false}, {"cff", "rand", 8, fmTranslate, false}, {"cid", "rand", 8, fmTranslate, true},
 			{"ttf", "rand", 7, fmShear, false}, {"cff", "mono", 7, fmShear, false}, {"cid", "rand", 7, fmShear, false},
 			{"ttf", "rand", 6, fmAniso, false}, {"cff", "rand", 6, fmAniso, false}, {"cid", "rand", 6, fmAniso, true},
 			{"ttf", "rand", 6, fmFlipY, false}, {"cff", "rand", 6, fmFlipXShift, false}, {"cid", "rand", 6, fmFlipY, false},
 			{"ttf", "rand", 5, fmRotate, false}, {"cff", "rand", 5, fmRotate, false}, {"cid", "rand", 5, fmRotate, true}}
+		extra := extraCases()
 		if i < len(corpus) {
 			fc.Upm, fc.WMode = 1000, "rand"
+		} else if k := i - len(corpus) - len(fixed); k >= 0 && k < len(extra) {
+			x := extra[k]
+			x.RSeed, x.Upm, x.WMode, x.Matrix = fc.RSeed, 1000, "rand", "top"
+			if x.Angle == [2]int{} && k%3 == 1 {
+				x.Angle = fc.Angle
+			}
+			fc = &x
 		} else if k := i - len(corpus); k < len(fixed) {
 			// width patterns every run must contain (fixed-pitch test on fractional widths)
 			fc.Opts.Kind, fc.Opts.N, fc.Opts.Composites, fc.WMode = fixed[k].kind, fixed[k].n, 0, fixed[k].wmode
@@ -120,6 +146,38 @@ func fontCases(n int) []*FontCase {
 			fc.Opts.Composites = 0
 		}
 		res = append(res, fc)
+	}
+	return res
+}
+
+// extraCases are fonts every run contains: degenerate glyph geometry at the extremes of the union,
+// character maps with one mapping / astral codes only, and style flags enumerated independently.
+func extraCases() []FontCase {
+	var res []FontCase
+	for _, k := range []string{"ttf", "cff", "cid"} {
+		res = append(res,
+			FontCase{Opts: fonts.Opts{Kind: k, N: 9, Cmap: "4", FDs: 2}, Geo: "degen"},
+			FontCase{Opts: fonts.Opts{Kind: k, N: 7, Cmap: "4", FDs: 1}, Geo: "degenonly"})
+	}
+	for i, cm := range []string{"12single", "12two", "12astral1", "12astral", "4single", "12bmp", "12single", "12two"} {
+		res = append(res, FontCase{Opts: fonts.Opts{Kind: []string{"cff", "ttf", "cid"}[i%3], N: 6, Cmap: "none", FDs: 1}, CMap: cm})
+	}
+	// style inputs: IsItalic x angle sign x IsOblique x IsBold x IsRegular x weight, covered pairwise
+	angles := [][2]int{{0, 0}, {65524, 0}, {9, 1}}
+	weights := []int{400, 700, 650, 300}
+	k := 0
+	for it := 0; it < 2; it++ {
+		for ob := 0; ob < 2; ob++ {
+			for bo := 0; bo < 2; bo++ {
+				for rg := 0; rg < 2; rg++ {
+					res = append(res, FontCase{
+						Opts:  fonts.Opts{Kind: []string{"cff", "ttf", "cid"}[k%3], N: 4, Cmap: "4", FDs: 1},
+						Angle: angles[(k+it)%3],
+						Style: &StyleIn{Italic: it == 1, Oblique: ob == 1, Bold: bo == 1, Regular: rg == 1, Weight: weights[(k/2+bo)%4]}})
+					k++
+				}
+			}
+		}
 	}
 	return res
 }
@@ -145,6 +203,14 @@ func (fc *FontCase) build() (f *sfnt.Font, wq []int, codes []int) {
 		for i := range o.FontMatrices {
 			o.FontMatrices[i] = M
 		}
+	}
+
+	if st := fc.Style; st != nil {
+		f.IsItalic, f.IsOblique, f.IsBold, f.IsRegular = st.Italic, st.Oblique, st.Bold, st.Regular
+		f.Weight = os2.Weight(st.Weight)
+	}
+	if fc.Geo != "" && n >= 6 {
+		fc.degenerate(f)
 	}
 
 	// translated outlines: every glyph box ends up on one side of the origin
@@ -248,6 +314,34 @@ func (fc *FontCase) build() (f *sfnt.Font, wq []int, codes []int) {
 	// the codes the builder maps (fonts.Make, Cmap option)
 	codes = []int{}
 	seen := map[int]bool{}
+	if fc.CMap != "" && n >= 3 {
+		m12 := cmap.Format12{}
+		switch fc.CMap {
+		case "12single":
+			m12[0x41] = 1
+		case "12two":
+			m12[0x41], m12[0x42] = 1, 2
+		case "12astral1":
+			m12[0x1F600] = 1
+		case "12astral":
+			for i := 1; i < n; i++ {
+				m12[uint32(0x10000+97*i)] = glyph.ID(i)
+			}
+		case "12bmp":
+			for i := 1; i < n; i++ {
+				m12[uint32(0x3000+5*i)] = glyph.ID(i)
+			}
+		case "4single":
+			f.InstallCMap(cmap.Format4{0x263A: 2})
+			return f, wq, []int{0x263A}
+		}
+		f.InstallCMap(m12)
+		for c := range m12 {
+			codes = append(codes, int(c))
+		}
+		sort.Ints(codes)
+		return f, wq, codes
+	}
 	for i := 1; i < n; i++ {
 		var c rune
 		switch fc.Opts.Cmap {
@@ -265,6 +359,48 @@ func (fc *FontCase) build() (f *sfnt.Font, wq []int, codes []int) {
 		}
 	}
 	return f, wq, codes
+}
+
+// degenerate replaces glyphs 2..4 by a lone point, a horizontal and a vertical stroke, each of which alone
+// determines an extreme of the union of the glyph boxes; glyph 0 becomes blank; with "degenonly" every
+// other glyph is blank as well, apart from one small ordinary glyph.
+func (fc *FontCase) degenerate(f *sfnt.Font) {
+	shapes := map[int][][2]int{
+		2: {{-3000, -2800}},                  // lone point: xMin and yMin of the font
+		3: {{100, 3100}, {900, 3100}},        // horizontal stroke (zero height): yMax
+		4: {{3200, -50}, {3200, 650}},        // vertical stroke (zero width): xMax
+		5: {{10, 20}, {300, 20}, {150, 400}}, // an ordinary triangle
+	}
+	n := f.NumGlyphs()
+	for i := 0; i < n; i++ {
+		pts, special := shapes[i]
+		blank := i == 0 || (fc.Geo == "degenonly" && !special)
+		if !special && !blank {
+			continue
+		}
+		switch o := f.Outlines.(type) {
+		case *cff.Outlines:
+			g := o.Glyphs[i]
+			g.Cmds, g.HStem, g.VStem = nil, nil, nil
+			for k, p := range pts {
+				if k == 0 {
+					g.MoveTo(float64(p[0]), float64(p[1]))
+				} else {
+					g.LineTo(float64(p[0]), float64(p[1]))
+				}
+			}
+		case *glyf.Outlines:
+			if len(pts) == 0 {
+				o.Glyphs[i] = nil
+				continue
+			}
+			c := make([]glyf.Point, len(pts))
+			for k, p := range pts {
+				c[k] = glyf.Point{X: funit.Int16(p[0]), Y: funit.Int16(p[1]), OnCurve: true}
+			}
+			o.Glyphs[i] = fonts.SimpleTT([][]glyf.Point{c}, nil)
+		}
+	}
 }
 
 func sign(x float64) int {
@@ -364,7 +500,7 @@ func rationalMatrix(M matrix.Matrix) (N [6]int, D int, ok bool) {
 
 // declared collects the tables with derived fields as the written file declares them.
 func declared(e ev) ev {
-	return ev{"hhea": e["hhea"], "hm": e["hm"], "head": e["head"], "os2": e["os2"], "maxp": e["maxp"]}
+	return ev{"hhea": e["hhea"], "hm": e["hm"], "head": e["head"], "os2": e["os2"], "maxp": e["maxp"], "post": e["post"]}
 }
 
 func milli(r [4]float64) [4]int {
@@ -477,6 +613,27 @@ func describe(c *Case, stage string, f *sfnt.Font, wq, codes []int) (e ev, file 
 	_, err := f.Write(&buf)
 	e["wrote"] = err == nil
 	file = buf.Bytes()
+	// identical calls give identical files
+	same := true
+	for k := 0; k < 3 && err == nil; k++ {
+		var b2 bytes.Buffer
+		if _, err2 := f.Write(&b2); err2 != nil || !bytes.Equal(b2.Bytes(), file) {
+			same = false
+		}
+	}
+	e["rewrite_same"] = same
+	// the style inputs of the font value, and the story sfnt.Read tells about the written file
+	sub := f.Subfamily()
+	st := ev{"i_italic": f.IsItalic, "i_oblique": f.IsOblique, "i_bold": f.IsBold, "i_regular": f.IsRegular,
+		"weight": int(f.Weight), "name_italic": strings.Contains(sub, "Italic"), "name_bold": strings.Contains(sub, "Bold"),
+		"read_ok": false, "r_italic": false, "r_oblique": false, "r_bold": false, "r_regular": false, "r_weight": 0, "r_upm": 0}
+	if err == nil {
+		if g, rerr := sfnt.Read(bytes.NewReader(file)); rerr == nil {
+			st["read_ok"], st["r_italic"], st["r_oblique"], st["r_bold"], st["r_regular"] = true, g.IsItalic, g.IsOblique, g.IsBold, g.IsRegular
+			st["r_weight"], st["r_upm"] = int(g.Weight), int(g.UnitsPerEm)
+		}
+	}
+	e["st"] = st
 	tabs := map[string][]byte{}
 	if err == nil {
 		t, perr := mx.ParseSFNT(file)
@@ -493,6 +650,14 @@ func describe(c *Case, stage string, f *sfnt.Font, wq, codes []int) (e ev, file 
 	}
 	e["hhea"], e["hm"], e["head"] = words("hhea", 0), words("hmtx", 0), words("head", 0)
 	e["os2"], e["post"], e["maxp"] = words("OS/2", 48), words("post", 16), words("maxp", 0)
+	// the character codes of the cmap actually written (own walker)
+	fcodes, fok := []int{}, false
+	if ct, has := tabs["cmap"]; has {
+		if cc, ok := mx.CmapCodes(ct); ok {
+			fcodes, fok = cc, true
+		}
+	}
+	e["has_cmap"], e["fcodes_ok"], e["fcodes"] = tabs["cmap"] != nil, fok, fcodes
 	fileBox := [][4]int{}
 	fileEmpty := []bool{}
 	locaN := -1 // number of glyphs the loca table of the file has room for
